@@ -175,6 +175,7 @@ struct World {
     hs_done: bool,
     rejected_cfg: bool,
     pending_ctl: Vec<Value>,
+    reverse_finish: bool,
 }
 
 struct Setup {
@@ -231,6 +232,7 @@ fn make_world(cfg: &Value) -> World {
         hs_done: false,
         rejected_cfg: cfg["rejected"].as_bool().unwrap_or(false),
         pending_ctl: vec![],
+        reverse_finish: false,
     }
 }
 
@@ -629,21 +631,52 @@ impl World {
                 }
                 self.flush_ctl(out);
                 loop {
+                    let reverse = self.reverse_finish;
                     let (e, peer) = self.ends(side);
                     if e.outbox.iter().all(|f| f.stale) || peer.dead.is_some() {
                         break;
                     }
-                    let is_stream = matches!(e.outbox.iter().find(|f| !f.stale).unwrap().wire, Wire::Stream(..));
-                    if let Some(ev) = self.step_c(&json!(["deliver", side, 0]), out) {
+                    // the finish is fair, not orderly: in half of the runs the NEWEST frame in flight is delivered first
+                    // (a FIN overtaking a hole, data behind a gap) and the reader is polled after every delivery
+                    let live: Vec<usize> = e.outbox.iter().enumerate().filter(|(_, f)| !f.stale).map(|(i, _)| i).collect();
+                    let pick = if reverse { live.len() - 1 } else { 0 };
+                    let is_stream = matches!(e.outbox[live[pick]].wire, Wire::Stream(..));
+                    let id = e.outbox[live[pick]].id;
+                    if let Some(ev) = self.step_c(&json!(["deliver", side, pick]), out) {
                         out.emit(&ev);
                         progress = true;
                     }
                     self.flush_ctl(out);
                     if is_stream {
-                        if let Some(ev) = self.step_c(&json!(["ack", side, 0]), out) {
-                            out.emit(&ev);
+                        // acknowledge exactly the frame that was just delivered
+                        let (e, _) = self.ends(side);
+                        let k = e.outbox.iter().filter(|f| matches!(f.wire, Wire::Stream(..)) && f.delivered).position(|f| f.id == id);
+                        if let Some(k) = k {
+                            if let Some(ev) = self.step_c(&json!(["ack", side, k]), out) {
+                                out.emit(&ev);
+                            }
                         }
                         self.flush_ctl(out);
+                    }
+                    if self.reverse_finish {
+                        let peer = if side == "cli" { "srv" } else { "cli" };
+                        for dir in ["bi", "uni"] {
+                            loop {
+                                let ev = self.step_c(&json!(["accept", peer, dir]), out).unwrap();
+                                self.flush_ctl(out);
+                                if ev["res"] != "ok" {
+                                    break;
+                                }
+                                out.emit(&ev);
+                            }
+                        }
+                        let sids: Vec<u64> = self.ends(peer).0.readers.keys().copied().collect();
+                        for sid in sids {
+                            if let Some(ev) = self.step_c(&json!(["read", peer, sid, 64]), out) {
+                                out.emit(&ev);
+                            }
+                            self.flush_ctl(out);
+                        }
                     }
                 }
                 // accept and read everything
@@ -718,6 +751,7 @@ fn run_one(hdr: &Value, ops: &[Value], out: &mut Out) {
             return;
         }
     };
+    w.reverse_finish = ops.len() % 2 == 1;
     for op in ops {
         // frames an endpoint queues (MAX_DATA, MAX_STREAM_DATA, MAX_STREAMS, RESET_STREAM ...) take effect for its own
         // enforcement at once: observe them right after the call that produced them
